@@ -1,7 +1,152 @@
-(* C18 - placeholder while the pipeline is assembled *)
+(* C18 - Peer management: outbound target kept; bans, per-host and total limits hold.
+   Only the property theorems, each closed by `exact`.  Models: theories/Peers.v (admission
+   bookkeeping of transports/p2p/server.go) and theories/ConnMgr.v (transports/p2p/connmgr).
+
+   Every theorem quantifies over ALL finite event histories from the initial state (and over all
+   values of the limits).  Admission theorems that speak about the counters carry [wf evs]: each peer
+   object is delivered to Add at most once and a pid names one object - what the server can produce
+   (AddPeer is called once per peer, from OnVersion; ids come from an atomic counter).  Persistent
+   peers are exempt from the per-host count by design of the code. *)
 From Coq Require Import ZArith List.
-From BHS Require Import Peers ConnMgr.
+From BHS Require Import Peers PeersProofs ConnMgr ConnMgrProofs.
+Import ListNotations.
 Open Scope Z_scope.
-Theorem C18_stub : Peers.total Peers.init = 0.
-Proof. reflexivity. Qed.
-Print Assumptions C18_stub.
+
+(* ---- admission ---- *)
+
+(* the set of admitted peers never exceeds the total peer limit *)
+Theorem C18_count_le_max : forall c evs,
+  0 <= max_peers c -> total (run c init evs) <= max_peers c.
+Proof. exact count_le_max. Qed.
+
+(* ... or the per-host limit *)
+Theorem C18_per_host_le_max : forall c evs h,
+  0 <= max_per_ip c -> wf evs -> counted_of_host (run c init evs) h <= max_per_ip c.
+Proof. exact per_host_le_max. Qed.
+
+(* the per-host counter IS the number of currently admitted counted peers of that host *)
+Theorem C18_conn_count_exact : forall c evs h,
+  wf evs -> cget (ccount (run c init evs)) h = counted_of_host (run c init evs) h.
+Proof. exact conn_count_exact. Qed.
+
+(* the per-group counter IS the number of currently admitted outbound peers of that group *)
+Theorem C18_group_count_exact : forall c evs g,
+  wf evs -> cget (groups (run c init evs)) g = outbound_of_group (run c init evs) g.
+Proof. exact group_count_exact. Qed.
+
+(* counters return to zero when the corresponding peers have left *)
+Theorem C18_host_counter_returns_to_zero : forall c evs h,
+  wf evs ->
+  (forall p, In p (added evs) -> host p = h -> pkind p <> Persistent -> left_after evs p) ->
+  cget (ccount (run c init evs)) h = 0.
+Proof. exact host_counter_returns_to_zero. Qed.
+
+Theorem C18_group_counter_returns_to_zero : forall c evs g,
+  wf evs ->
+  (forall p, In p (added evs) -> group p = g -> pkind p <> Inbound -> left_after evs p) ->
+  cget (groups (run c init evs)) g = 0.
+Proof. exact group_counter_returns_to_zero. Qed.
+
+(* no peer from a banned host is admitted before the ban duration has elapsed: whatever came before
+   the ban and whatever happens between the ban and the attempt (clock not running backwards) *)
+Theorem C18_banned_not_admitted_before_expiry : forall c evs1 evs2 h t0 p now,
+  host p = h -> now < t0 + ban_dur c ->
+  time_mono t0 (evs2 ++ [Add p now]) ->
+  let s := run c init (evs1 ++ Ban h t0 :: evs2) in
+  step c s (Add p now) = (s, false).
+Proof. exact banned_not_admitted_before_expiry. Qed.
+
+(* ... while it is admitted again afterwards; and admission never wedges: with every ban of the host
+   run out, fewer than max_per_ip counted peers of the host really admitted and fewer than max_peers
+   in total, a new peer IS admitted *)
+Theorem C18_admitted_after_expiry : forall c evs p now,
+  wf (evs ++ [Add p now]) ->
+  (forall t0, In (Ban (host p) t0) evs -> t0 + ban_dur c <= now) ->
+  counted_of_host (run c init evs) (host p) < max_per_ip c ->
+  total (run c init evs) < max_peers c ->
+  snd (step c (run c init evs) (Add p now)) = true /\
+  admitted (fst (step c (run c init evs) (Add p now))) p.
+Proof. exact admitted_after_expiry. Qed.
+
+(* ---- connection manager ---- *)
+
+(* never holds more than the target *)
+Theorem C18_conns_le_target : forall T mf evs,
+  0 <= T -> ConnMgr.zlen (conns (crun (cinit T mf) evs)) <= T.
+Proof. exact conns_le_target. Qed.
+
+(* every slot is a connection, a request in flight, an armed retry timer, or was given up *)
+Theorem C18_slot_conservation : forall T mf evs,
+  0 <= T ->
+  let s := crun (cinit T mf) evs in
+  ConnMgr.zlen (conns s) + ConnMgr.zlen (tasks s) + timers s + bans s + canceled s = T.
+Proof. exact slot_conservation. Qed.
+
+(* FULL STATEMENT WANTED (refuted below):
+     forall T mf evs, 0 <= T -> let s := crun (cinit T mf) evs in
+       quiescent s -> canceled s = 0 -> zlen (conns s) = T
+   i.e. "keeps asking for addresses and dialling until the target is established".
+   What holds is the statement restricted to histories in which no address reached the ban
+   threshold (bans s = 0): *)
+Theorem C18_quiescent_full_partial : forall T mf evs,
+  0 <= T ->
+  let s := crun (cinit T mf) evs in
+  quiescent s -> bans s = 0 -> canceled s = 0 -> ConnMgr.zlen (conns s) = T.
+Proof. exact quiescent_full. Qed.
+
+Theorem C18_still_trying_partial : forall T mf evs,
+  0 <= T ->
+  let s := crun (cinit T mf) evs in
+  ConnMgr.zlen (conns s) < T -> bans s = 0 -> canceled s = 0 -> tasks s <> [] \/ 0 < timers s.
+Proof. exact still_trying. Qed.
+
+(* replaces an outbound connection that closes (below the failure threshold of its address) *)
+Theorem C18_replaces_closed_partial : forall T mf evs id a,
+  0 <= T ->
+  let s := crun (cinit T mf) evs in
+  conn_addr (conns s) id = Some a ->
+  (fget (failed s) a + 1) mod 65536 < mf ->
+  let s' := cstep s (Disconnect id) in
+  ConnMgr.zlen (conns s') = ConnMgr.zlen (conns s) - 1 /\
+  tasks s' = tasks s ++ [(next s + 1, Created)] /\ bans s' = bans s.
+Proof. exact replaces_closed. Qed.
+
+(* the defect: at the threshold the closed connection is NOT replaced ... *)
+Theorem C18_closed_not_replaced_at_threshold : forall T mf evs id a,
+  0 <= T ->
+  let s := crun (cinit T mf) evs in
+  conn_addr (conns s) id = Some a ->
+  mf <= (fget (failed s) a + 1) mod 65536 ->
+  let s' := cstep s (Disconnect id) in
+  ConnMgr.zlen (conns s') = ConnMgr.zlen (conns s) - 1 /\ tasks s' = tasks s /\
+  timers s' = timers s /\ bans s' = bans s + 1.
+Proof. exact closed_not_replaced_at_threshold. Qed.
+
+(* ... and the full statement is false: target 2, 25 refusals of one address, then a good address:
+   quiescent with ONE connection (witness checked by vm_compute) *)
+Theorem C18_ban_loses_slot_refuted :
+  ~ (forall T mf evs, 0 <= T ->
+       let s := crun (cinit T mf) evs in quiescent s -> canceled s = 0 -> ConnMgr.zlen (conns s) = T).
+Proof. exact ban_loses_slot_refuted. Qed.
+
+(* the states visited by the correspondence check's script layer are states of this model *)
+Theorem C18_script_states_reachable : forall T mf sevs,
+  exists evs, core (fold_left (fun x e => fst (sstep x e)) sevs (sinit T mf)) = crun (cinit T mf) evs.
+Proof. exact script_states_reachable. Qed.
+
+Print Assumptions C18_count_le_max.
+Print Assumptions C18_per_host_le_max.
+Print Assumptions C18_conn_count_exact.
+Print Assumptions C18_group_count_exact.
+Print Assumptions C18_host_counter_returns_to_zero.
+Print Assumptions C18_group_counter_returns_to_zero.
+Print Assumptions C18_banned_not_admitted_before_expiry.
+Print Assumptions C18_admitted_after_expiry.
+Print Assumptions C18_conns_le_target.
+Print Assumptions C18_slot_conservation.
+Print Assumptions C18_quiescent_full_partial.
+Print Assumptions C18_still_trying_partial.
+Print Assumptions C18_replaces_closed_partial.
+Print Assumptions C18_closed_not_replaced_at_threshold.
+Print Assumptions C18_ban_loses_slot_refuted.
+Print Assumptions C18_script_states_reachable.
